@@ -13,6 +13,7 @@ Pinned:
 and added:
   * runtime.VerifLabels()  -> current goroutine's profiler-label pointer
   * runtime.VerifGoID()    -> current goroutine id
+  * sync.VerifLockHook     -> optional callback before Mutex.Lock / RWMutex.Lock / RWMutex.RLock
 The seed is read from env VERIF_MAPSEED (decimal) right after goenvs(); unset or
 "off" leaves seeds/offsets random (hash keys stay constant).
 """
@@ -88,6 +89,22 @@ patch("runtime/proc.go", [("\tgoenvs()\n", "\tgoenvs()\n\tverifPinInit()\n", 1)]
 patch("runtime/alg.go", [
     ("hashkey[i] = uintptr(bootstrapRand())", "hashkey[i] = uintptr(0x9e3779b97f4a7c15 * uint64(i+1))", 1),
     ("key[i] = bootstrapRand()", "key[i] = 0xd6e8feb86659fd93 * uint64(i+1)", 1),
+])
+
+# ---- sync: an optional hook in front of every Mutex/RWMutex acquisition ----
+# (nil unless the simulation child sets it; the child parks only callers inside DVID's own sources, so
+# that the order in which request goroutines take DVID's locks is the seeded scheduler's decision too)
+patch("sync/mutex.go", [
+    ("func (m *Mutex) Lock() {\n\tm.mu.Lock()\n", "func (m *Mutex) Lock() {\n\tif h := VerifLockHook; h != nil {\n\t\th(\"Lock\")\n\t}\n\tm.mu.Lock()\n", 1),
+], append="""
+
+// VerifLockHook, when set by the simulation harness, is called before every
+// Mutex.Lock, RWMutex.Lock and RWMutex.RLock (build overlay only).
+var VerifLockHook func(kind string)
+""")
+patch("sync/rwmutex.go", [
+    ("func (rw *RWMutex) RLock() {\n", "func (rw *RWMutex) RLock() {\n\tif h := VerifLockHook; h != nil {\n\t\th(\"RLock\")\n\t}\n", 1),
+    ("func (rw *RWMutex) Lock() {\n", "func (rw *RWMutex) Lock() {\n\tif h := VerifLockHook; h != nil {\n\t\th(\"WLock\")\n\t}\n", 1),
 ])
 
 total = 0
